@@ -5,7 +5,7 @@
 //! lengths whose storage tree has the affected shape are named.
 //!
 //! CASE [4, ty, nd, b_0..]   (op 4 = const item; the main binary's encoding; ty 4 Fd {7, 9}, ty 6 one
-//!                            byte 0x5A -- here a type with a destructor)
+//!                            byte 0x5A -- here a type with a destructor, ty 12 a zero-sized type: codes 0)
 //! OBS  [N, element codes...] | [-1] rejected by rustc
 use harness::probe::Probe;
 use harness::*;
@@ -23,8 +23,12 @@ impl ConstDefault for Fd {{ const DEFAULT: Fd = Fd {{ a: 7, b: 9 }}; }}
 pub struct Dr(u8);
 impl Drop for Dr {{ fn drop(&mut self) {{}} }}
 impl ConstDefault for Dr {{ const DEFAULT: Dr = Dr(0x5A); }}
+pub struct Zc;
+impl ConstDefault for Zc {{ const DEFAULT: Zc = Zc; }}
 const A: GenericArray<Fd, U{n}> = GenericArray::const_default();
 const B: GenericArray<Dr, U{n}> = GenericArray::const_default();
+const Z: GenericArray<Zc, U{n}> = GenericArray::const_default();
+const ZD: GenericArray<Zc, U{n}> = <GenericArray<Zc, U{n}> as ConstDefault>::DEFAULT;
 static S: GenericArray<Fd, U{n}> = <GenericArray<Fd, U{n}> as ConstDefault>::DEFAULT;
 fn main() {{
     let a = A; let b = B;
@@ -36,6 +40,11 @@ fn main() {{
     println!("B {{}}", o.join(" "));
     let same = S.iter().zip(a.iter()).all(|(x, y)| x.a == y.a && x.b == y.b) && S.len() == a.len();
     println!("S {{}}", same as u8);
+    let z = Z; let zd = ZD;
+    let mut o: Vec<String> = vec![format!("{{}}", z.len())];
+    for _ in z.iter() {{ o.push("0".to_string()); }}
+    println!("Z {{}}", o.join(" "));
+    println!("ZD {{}}", (zd.len() == z.len()) as u8);
 }}
 "#
     )
@@ -138,7 +147,11 @@ fn main() {
     for (i, n) in lens.iter().enumerate() {
         let d = digits(*n);
         let r = results[i].clone().unwrap();
-        for (ty, tag, name) in [(4i128, "A ", "a ConstDefault struct that is not Copy"), (6, "B ", "a ConstDefault type with a destructor")] {
+        for (ty, tag, name) in [
+            (4i128, "A ", "a ConstDefault struct that is not Copy"),
+            (6, "B ", "a ConstDefault type with a destructor"),
+            (12, "Z ", "a ZERO-SIZED ConstDefault type"),
+        ] {
             let mut case = vec![4, ty, d.len() as i128];
             case.extend(&d);
             emit_case(&case);
@@ -148,6 +161,9 @@ fn main() {
                     let l = out.lines().find(|l| l.starts_with(tag)).unwrap_or("");
                     let v: Vec<i128> = l[tag.len().min(l.len())..].split_whitespace().filter_map(|x| x.parse().ok()).collect();
                     emit_obs(&v);
+                    if ty == 12 && !out.lines().any(|l| l == "ZD 1") {
+                        emit_oracle("the zero-sized array from DEFAULT has another length than the one from const_default()");
+                    }
                     if !out.lines().any(|l| l == "S 1") {
                         emit_oracle("the static initialised with <GenericArray<T, N> as ConstDefault>::DEFAULT differs from the const item");
                     }
